@@ -221,7 +221,7 @@ def run(ctx):
                     break
             # ---- compare
             try:
-                out = d.dump()
+                out = rm.dump_every_way(d)
                 d2 = repro.parse_deb822_file(out.splitlines(True), accept_files_with_duplicated_fields=True)
             except Exception as ex:
                 bad = t.failed("dump / re-parse raised %r" % (ex,), document=doc, operations=ops)
